@@ -8,6 +8,8 @@ stage 1  TLC checks spec/BodyFraming.tla (re-send state machine of HTTPConnectio
                          UnrewindableBodyError), FramingTable, RefusedOnlyWhenUnreplayable, DesignResends,
                          ManagerKeepsFirstPosition, PredictIsTheMachine, liveness Terminates
            D = {D3}      the code as recorded (on one-shot bodies, where the deviation's guard can fire): RulesHoldExceptKnown
+           D = {ChunkSizeCountsItems}  the code as recorded, second finding (on wide buffers): RulesHoldExceptKnown
+           D = {LengthCountsItems}  a variant TLC must refute (Content-Length = len() of a buffer whose items are wider than a byte)
            D = {ShortReadIsEOF}  a variant TLC must refute (chunk_readable stops after a block shorter than the blocksize): it breaks
                          PayloadEqualsBody exactly for streams that hand out short blocks while more data follows
            D = {ZeroPosTreatedAsUnset}  a variant TLC must refute (PoolManager tests the truth value of the recorded position):
@@ -49,15 +51,20 @@ INVARIANTS = ["TypeOK", "RulesHold", "RulesHoldExceptKnown", "FramingTable", "Re
               "ManagerKeepsFirstPosition", "PredictIsTheMachine"]
 Z0 = "ZeroPosTreatedAsUnset"
 SR = "ShortReadIsEOF"
+LCI = "LengthCountsItems"
+CSI = "ChunkSizeCountsItems"         # recorded finding (known_findings.d/C11.json)
 RESEND = ["err", "errsend", "503", "307", "308", "303"]
-ALL_KINDS = ["none", "bytes", "str", "buffer", "file", "textfile", "notell", "badseek", "badtell", "list", "strlist", "gen",
+ALL_KINDS = ["none", "bytes", "str", "buffer", "widebuffer", "file", "textfile", "notell", "badseek", "badtell", "list", "strlist", "gen",
              "shortfile", "shorttextfile", "shortpipe", "shorttextpipe"]
 TEXT_KINDS = {"str", "textfile", "strlist", "shorttextfile", "shorttextpipe"}
 ONE_SHOT = {"notell", "gen", "shortpipe", "shorttextpipe"}
 HAS_TELL = {"file", "textfile", "badseek", "badtell", "shortfile", "shorttextfile"}
 SHORT_READERS = {"shortfile", "shorttextfile", "shortpipe", "shorttextpipe"}
 SHORT_READ_REAL = 700        # bytes / characters per read of a short-reading stream when the real blocksize is used
+WIDE_ITEM = {"array-H": 2, "cast-H": 2, "2d-memoryview": 2, "array-I": array.array("I").itemsize, "array-d": 8}
 VARIANTS = {"none": ["None"], "bytes": ["bytes"], "str": ["str"], "buffer": ["bytearray", "memoryview", "array"],
+            # buffer objects whose len() is not their size in bytes (items wider than a byte, several dimensions)
+            "widebuffer": ["array-H", "cast-H", "2d-memoryview", "array-I", "array-d"],
             "file": ["BytesIO", "realfile"], "textfile": ["StringIO", "realtextfile"], "notell": ["readonly"],
             "badseek": ["badseek"], "badtell": ["badtell"], "list": ["list", "tuple"], "strlist": ["liststr"],
             "gen": ["generator", "iter(list)"],
@@ -77,6 +84,8 @@ CONSTANTS
   MCHistMethods = {hmethods}
   MCHist3Sizes = {h3sizes}
   MCShortSizes = {ssizes}
+  MCWideSizes = {wsizes}
+  MCWideHistSizes = {whsizes}
   MCShortTextMaxHist = {stexthist}
   MCBS = {bs}
   ShardK = {k}
@@ -207,11 +216,24 @@ class _BadTell(io.BytesIO):
         raise OSError("tell refused")
 
 
+def variants_for(sc, mode, total):
+    """the concrete body objects that can carry this scenario (a wide buffer needs a whole number of items)"""
+    vs = VARIANTS[sc["kind"]]
+    if sc["kind"] != "widebuffer":
+        return vs
+    nbytes = sum(unit_lengths(sc, mode, total)[sc["start"]:])
+    return [v for v in vs if nbytes % WIDE_ITEM[v] == 0 and (nbytes > 0 or v.startswith("array"))]
+
+
 def unit_lengths(sc, mode, total):
     """number of characters each content symbol stands for"""
     n = len(sc["content"])
     if mode == "sym":
         return [1] * n
+    if sc["kind"] == "widebuffer":          # every unit a whole number of 8-byte items
+        total = max(total, n)
+        part = -(-(total // max(n, 1)) // 8) * 8
+        return [part] * n
     nbody = n - sc["start"]
     lens = [3] * sc["start"]                       # the junk before the start offset
     if nbody:
@@ -244,6 +266,16 @@ def realise(sc, mode, variant, total, tmpdir):
         body = body_text
     elif kind == "buffer":
         body = {"bytearray": bytearray(want), "memoryview": memoryview(want), "array": array.array("B", want)}[variant]
+    elif kind == "widebuffer":
+        if len(want) % WIDE_ITEM[variant]:
+            raise tlc.MachineryError(f"{variant} cannot hold {len(want)} bytes")
+        if variant.startswith("array-"):
+            body = array.array(variant[-1])
+            body.frombytes(want)
+        elif variant == "cast-H":
+            body = memoryview(want).cast("H")
+        else:
+            body = memoryview(want).cast("B", shape=[len(want) // 2, 2])
     elif kind == "file":
         if variant == "BytesIO":
             body = io.BytesIO(enc(whole))
@@ -345,7 +377,7 @@ def execute(sc, mode="sym", variant=None, total=0) -> dict:
     from urllib3.poolmanager import PoolManager
     from urllib3.util.retry import Retry
     kind = sc["kind"]
-    variant = variant or VARIANTS[kind][0]
+    variant = variant or variants_for(sc, mode, total)[0]
     hist = list(sc["hist"])
     seen = []                                        # (cid, Request) in arrival order
     # a history with a write failure gives every attempt its own connection (attempt j = connection j), so that the
@@ -606,7 +638,7 @@ def _replay_shard(args):
 def plan_realisations(sc, idx, quick, rng):
     """Which concrete executions one emitted scenario gets."""
     kind = sc["kind"]
-    vs = VARIANTS[kind]
+    vs = variants_for(sc, "sym", 0)
     out = [("sym", vs[idx % len(vs)], 0)]
     if not quick and len(vs) > 1:
         out.append(("sym", vs[(idx + 1) % len(vs)], 0))
@@ -618,7 +650,8 @@ def plan_realisations(sc, idx, quick, rng):
         sizes = [1, REAL_BS - 1, REAL_BS, REAL_BS + 1, 3 * REAL_BS + 5]
         pick = sizes if (not quick and len(sc["hist"]) == 1) else [sizes[(idx // 4 + rng.randrange(5)) % 5]]
         for tot in pick:
-            out.append(("dig", vs[(idx + tot) % len(vs)], tot))
+            vd = variants_for(sc, "dig", tot)
+            out.append(("dig", vd[(idx + tot) % len(vd)], tot))
     return out
 
 
@@ -633,14 +666,14 @@ def _hists(quick):
 
 def _params(quick):
     if quick:
-        return dict(kinds=ALL_KINDS, sizes=[0, 1, 4], methods=[1, 2, 3], hsizes=[0, 4], hmethods=[2], h3sizes=[4], ssizes=[4], stexthist=1, bs=3)
+        return dict(kinds=ALL_KINDS, sizes=[0, 1, 4], methods=[1, 2, 3], hsizes=[0, 4], hmethods=[2], h3sizes=[4], ssizes=[4], wsizes=[0, 2, 8], whsizes=[8], stexthist=1, bs=3)
     return dict(kinds=ALL_KINDS, sizes=[0, 1, 2, 3, 4, 8], methods=[1, 2, 3, 4, 5, 6, 7, 8], hsizes=[0, 1, 4],
-                hmethods=[1, 2, 3, 4, 5, 6, 7, 8], h3sizes=[0, 1, 4], ssizes=[1, 2, 3, 4, 8], stexthist=3, bs=3)
+                hmethods=[1, 2, 3, 4, 5, 6, 7, 8], h3sizes=[0, 1, 4], ssizes=[1, 2, 3, 4, 8], wsizes=[0, 2, 4, 8], whsizes=[0, 2, 8], stexthist=3, bs=3)
 
 
 def _cfg(p, defects, checks, k=1, s=0, emit=False):
     return MC_CFG.format(defects="{" + ", ".join(tla_set(d) for d in defects) + "}", kinds=tla_set(p["kinds"]), sizes=tla_set(p["sizes"]), hsizes=tla_set(p["hsizes"]),
-                         methods=tla_set(p["methods"]), hmethods=tla_set(p["hmethods"]), h3sizes=tla_set(p["h3sizes"]), ssizes=tla_set(p["ssizes"]), stexthist=p["stexthist"], bs=p["bs"],
+                         methods=tla_set(p["methods"]), hmethods=tla_set(p["hmethods"]), h3sizes=tla_set(p["h3sizes"]), ssizes=tla_set(p["ssizes"]), wsizes=tla_set(p["wsizes"]), whsizes=tla_set(p["whsizes"]), stexthist=p["stexthist"], bs=p["bs"],
                          k=k, s=s, emit="TRUE" if emit else "FALSE", checks=checks)
 
 
@@ -663,8 +696,8 @@ def run(rep):
     # ---- stage 1 + 2: ONE exhaustive run explores the design (D = {}), the code as recorded (D = {D3}, on one-shot bodies, where
     # the deviation's guard can fire) and the variant that must be refuted (D = {ZeroPosTreatedAsUnset}, on seekable bodies behind a
     # PoolManager) side by side, checks every invariant in every state and prints every terminal state
-    r1, emitted = _model_run(("MC_BodyFraming", _cfg(p, [[], ["D3"], [Z0], [SR]], checks, emit=True), envdoc, False))
-    label = f"MC_BodyFraming D in {{{{}}, {{D3}}, {{{Z0}}}, {{{SR}}}}} {p} histories={len(hists)} invariants={INVARIANTS}+Terminates"
+    r1, emitted = _model_run(("MC_BodyFraming", _cfg(p, [[], ["D3"], [CSI], [Z0], [SR], [LCI]], checks, emit=True), envdoc, False))
+    label = f"MC_BodyFraming D in {{{{}}, {{D3}}, {{{CSI}}}, {{{Z0}}}, {{{SR}}}, {{{LCI}}}}} {p} histories={len(hists)} invariants={INVARIANTS}+Terminates"
     rep.states += r1["distinct"]
     rep.transitions += r1["generated"]
     rep.stage1.append({"run": label, "distinct_states": r1["distinct"], "states_generated": r1["generated"], "depth": r1["depth"],
@@ -686,22 +719,28 @@ def run(rep):
     if len(emitted) != r1["initial"]:
         raise tlc.MachineryError(f"emission incomplete: {len(emitted)} terminal states emitted for {r1['initial']} scenarios")
     design = {k: v for (dv, k), v in emitted.items() if dv == "design"}
-    code = {k: v for (dv, k), v in emitted.items() if dv == "D3"}
+    code = {k: v for (dv, k), v in emitted.items() if dv in ("D3", CSI)}     # the code as recorded: both recorded findings
+    wide = {k: v for (dv, k), v in emitted.items() if dv == CSI}
+    items_len = {k: v for (dv, k), v in emitted.items() if dv == LCI}
     zero = {k: v for (dv, k), v in emitted.items() if dv == Z0}
     short = {k: v for (dv, k), v in emitted.items() if dv == SR}
     if (not design or not set(code) <= set(design) or not set(zero) <= set(design) or not set(short) <= set(design)
-            or len(design) + len(code) + len(zero) + len(short) != len(emitted)):
+            or not set(items_len) <= set(design) or len(design) + len(code) + len(zero) + len(short) + len(items_len) != len(emitted)):
         raise tlc.MachineryError(f"emission mismatch: {len(design)} design / {len(code)} D3 / {len(zero)} {Z0} / {len(short)} {SR} terminal states")
-    if {k for k, v in design.items() if v[0]["kind"] in ONE_SHOT} != set(code):
+    if {k for k, v in design.items() if v[0]["kind"] in ONE_SHOT} != set(code) - set(wide):
         raise tlc.MachineryError("the run with the recorded deviation D3 did not cover exactly the one-shot scenarios")
+    if {k for k, v in design.items() if v[0]["kind"] == "widebuffer" and v[0]["caller"] == "none"} != set(wide):
+        raise tlc.MachineryError(f"the run with the recorded deviation {CSI} did not cover exactly the wide-buffer scenarios")
     bad_design = [k for k, v in design.items() if v[2] != "ok"]
     if bad_design:
         raise tlc.MachineryError("emission shows a Rules failure in the design model: " + bad_design[0])
     # TLC must exhibit the recorded deviation and refute the zero-position variant (its own Verdict on its own model run)
     shown = {"D3": sum(1 for v in code.values() if v[2] == "BodyIdentical"), Z0: sum(1 for v in zero.values() if v[2] == "BodyIdentical"),
-             SR: sum(1 for v in short.values() if v[2] == "PayloadEqualsBody")}
+             SR: sum(1 for v in short.values() if v[2] == "PayloadEqualsBody"),
+             CSI: sum(1 for v in wide.values() if v[2] == "PayloadEqualsBody"),
+             LCI: sum(1 for v in items_len.values() if v[2] == "PayloadEqualsBody")}
     rep.extra["deviations_exhibited_by_tlc"] = shown
-    rep.extra["emitted_scenarios"] = {"design": len(design), "D3": len(code), Z0: len(zero), SR: len(short)}
+    rep.extra["emitted_scenarios"] = {"design": len(design), "D3": len(code), CSI: len(wide), Z0: len(zero), SR: len(short), LCI: len(items_len)}
     for d, n in shown.items():
         if not n:
             raise tlc.MachineryError(f"the deviation {d} is not reachable in the model: no terminal state violates the expected clause with D = {{{d}}}")
